@@ -79,7 +79,7 @@ func genCreate(t *rapid.T, cfg *GenConfig, op *Op) {
 		}
 		return
 	}
-	mode := rapid.SampledFrom([]string{"literal", "literal", "variable", "meta", "overdraft", "unbounded", "ordered", "multi", "postings", "balance", "fromworld", "sendall", "sendall-variable"}).Draw(t, "mode")
+	mode := rapid.SampledFrom([]string{"literal", "literal", "variable", "meta", "overdraft", "unbounded", "ordered", "multi", "postings", "balance", "fromworld", "sendall", "sendall-variable", "twice-named", "twice-named"}).Draw(t, "mode")
 	if mode == "meta" && !cfg.MetaNaming {
 		mode = "variable"
 	}
@@ -134,6 +134,22 @@ func genCreate(t *rapid.T, cfg *GenConfig, op *Op) {
 			}
 			op.Postings = append(op.Postings, ledger.Posting{Source: s, Destination: d, Asset: asset, Amount: big.NewInt(int64(rapid.SampledFrom([]int{0, 10, 40, 80}).Draw(t, "pamt")))})
 		}
+	case "twice-named":
+		// the source account is named a second time, earlier and in another role: through a variable that
+		// is a destination or the target of a metadata write (one account, two designations)
+		switch rapid.IntRange(0, 2).Draw(t, "twiceShape") {
+		case 0:
+			op.Script = "vars {\n  account $x\n}\n" + sendScript("0", asset, "@world", "$x") + sendScript(amount, asset, "@"+src, "@"+dst)
+		case 1:
+			op.Script = "vars {\n  account $x\n}\n" + sendScript(amount, asset, "@"+src, "@"+dst) + fmt.Sprintf("set_account_meta($x, \"seen\", \"%s\")\n", op.Tag)
+		default:
+			op.Script = "vars {\n  account $x\n  account $s\n}\n" + sendScript("0", asset, "@world", "$x") + sendScript(amount, asset, "$s", "@"+dst)
+			op.Vars = map[string]string{"s": src}
+		}
+		if op.Vars == nil {
+			op.Vars = map[string]string{}
+		}
+		op.Vars["x"] = src
 	case "sendall":
 		op.Script = fmt.Sprintf("send [%s *] (\n  source = @%s\n  destination = @%s\n)\n", asset, src, dst)
 	case "sendall-variable":
